@@ -334,3 +334,56 @@ def _swap_independent(funcname, which, text):
 
 def swap_independent(file, funcname, which=0):
     return Variant('neutral: independent statements %d swapped in %s' % (which, funcname), 'neutral', file, transform=_functools.partial(_swap_independent, funcname, which))
+
+
+def _extract_temp(funcname, which, text):
+    """introduce a temporary for the `which`-th call/arith sub-expression of an assignment RHS in function `funcname`
+    (placed immediately before the statement; random draws and conditional sub-expressions are left alone)"""
+    try:
+        tree = _ast.parse(text)
+    except SyntaxError:
+        return None
+    target = None
+    for n in _ast.walk(tree):
+        if isinstance(n, (_ast.FunctionDef, _ast.AsyncFunctionDef)) and n.name == funcname:
+            target = n
+            break
+    if target is None:
+        return None
+    cands = []
+    for st in _ast.walk(target):
+        if not isinstance(st, _ast.Assign) or st.lineno != st.end_lineno:
+            continue
+        if not all(isinstance(t, (_ast.Name, _ast.Subscript)) for t in st.targets):
+            continue
+        for sub in _ast.walk(st.value):
+            if sub is st.value:
+                continue
+            if isinstance(sub, (_ast.Call, _ast.BinOp)) and sub.lineno == sub.end_lineno == st.lineno:
+                txt = _ast.unparse(sub)
+                if 'rng' in txt or 'random' in txt or len(txt) < 8:
+                    continue
+                # skip sub-expressions under lazy operators / comprehensions / lambdas
+                ok = True
+                for anc in _ast.walk(st.value):
+                    if isinstance(anc, (_ast.BoolOp, _ast.IfExp, _ast.ListComp, _ast.GeneratorExp, _ast.Lambda, _ast.SetComp, _ast.DictComp)) and any(x is sub for x in _ast.walk(anc)):
+                        ok = False
+                if ok:
+                    cands.append((st, sub))
+    if which >= len(cands):
+        return None
+    st, sub = cands[which]
+    lines = text.split('\n')
+    line = lines[st.lineno - 1]
+    b = line.encode('utf-8')
+    seg = b[sub.col_offset:sub.end_col_offset].decode('utf-8')
+    name = 'tmp_x%d' % which
+    new_line = (b[:sub.col_offset] + name.encode() + b[sub.end_col_offset:]).decode('utf-8')
+    indent = line[:len(line) - len(line.lstrip())]
+    lines[st.lineno - 1] = new_line
+    lines.insert(st.lineno - 1, indent + name + ' = ' + seg)
+    return '\n'.join(lines)
+
+
+def extract_temp(file, funcname, which=0):
+    return Variant('neutral: sub-expression %d of %s named by a temporary' % (which, funcname), 'neutral', file, transform=_functools.partial(_extract_temp, funcname, which))
